@@ -3,6 +3,9 @@
 #include "pv_common.hpp"
 #include "pv_lattice.hpp"
 #include "pv_index.hpp"
+#include "pv_store.hpp"
+#include "pv_model.hpp"
+#include "pv_container.hpp"
 #include <boost/mpi.hpp>
 
 static json g_current;
@@ -26,6 +29,9 @@ int main(int argc, char** argv) {
         if (sc.value("log", "") != "last") pv::emit({{"e", "Begin"}, {"id", sc.value("id", json())}});
         if (kind == "lattice") pv::run_lattice(sc);
         else if (kind == "index") pv::run_index(sc);
+        else if (kind == "store") pv::run_store(sc);
+        else if (kind == "model") pv::run_model(sc);
+        else if (kind == "container4") pv::run_container(sc);
         else pv::emit({{"e", "Error"}, {"id", sc.value("id", json())}, {"what", "unknown kind"}});
         pv::emit({{"e", "Done"}, {"id", sc.value("id", json())}});
     }
